@@ -5,8 +5,8 @@ Peculiarities modelled faithfully:
 * the preconditioner is applied to the initial defect *before* `_set_initial_defect`; if it fails the solver returns
   `aborted` with the convergence-control state of the *previous* solve (`st0`);
 * after the first half step the defect norm is tested directly with `is_diverged` / `is_converged`
-  (not through `_analyse_defect`: no `min_iter`, `max_iter`, stagnation test; not through `_calc_def_norm`);
-  a `success` there before `min_iter` iterations is the open finding "c07-edge:F2";
+  (not through `_analyse_defect`: no `max_iter`, stagnation test; not through `_calc_def_norm`); the `success` test
+  honours `min_iter` (`_num_iter + 1 >= _min_iter`) since the fix of finding c07-edge:F2, /repo commit 784169477;
 * if `_set_initial_defect` does not return `progress` the function returns that status (since the fix of F-C07-1,
   /repo commit c0d18e9d5; before, it fell through to `return Status::undefined`).
 -/
@@ -31,7 +31,7 @@ def bicgLoop (S : Sys V α) (c : Config α) (rh0 : V) :
       let defHalf := S.nrm r1
       if isDiverged c st.defInit defHalf then
         some ⟨.diverged, x1, { st with defCur := defHalf, numIter := st.numIter + 1, defPrev := st.defCur }, hist⟩
-      else if isConverged c st.defInit defHalf then
+      else if decide (c.minIter ≤ st.numIter + 1) && isConverged c st.defInit defHalf then
         some ⟨.success, x1, { st with defCur := defHalf, numIter := st.numIter + 1, defPrev := st.defCur }, hist⟩
       else
       let rt1 := S.ops.axpy rt qt (-alpha)
@@ -62,7 +62,7 @@ def bicgIntern (S : Sys V α) (c : Config α) (st0 : State α) (x r : V) : Optio
   | some pt =>
     let rho := S.ops.dot r pt
     let d0 := S.nrm r
-    let (status, st) := setInitialDefect c true d0
+    let (status, st) := setInitialDefect c st0 true d0
     if status ≠ .progress then some ⟨status, x, st, [d0]⟩
     else bicgLoop S c r (fuelOf c) x r pt pt rho st 1 [d0]
 
